@@ -118,7 +118,7 @@ class Digit(Parser):
         out = ''
         for i in range(self.n):
             c = stream.peek()
-            if not c.isdigit():
+            if not c.isdecimal():
                 stream.error('<digit>')
             out += stream.take()
         output.append(int(out))
@@ -142,10 +142,10 @@ class Number(Parser):
 
     def __call__(self, stream, output):
         out = stream.peek()
-        if not out.isdigit():
+        if not out.isdecimal():
             stream.error('<number>')
         stream.take()
-        while stream.peek().isdigit():
+        while stream.peek().isdecimal():
             out += stream.take()
         output.append(int(out))
 
